@@ -81,6 +81,14 @@ class FieldArrayModel(FieldCompositeModel):
             f.name = self.name + "[" + str(i) + "]"
         
     def pre_randomize(self, visited):
+        # The expansions of sum and product over the elements belong to 
+        # one call. A call that failed did not reach post_randomize, 
+        # where they are dropped
+        self.sum_expr = None
+        self.sum_expr_btor = None
+        self.product_expr = None
+        self.product_expr_btor = None
+
         # Set the size field for arrays that don't
         # have a random size
         if self.is_rand_sz:
